@@ -8,7 +8,7 @@
    test (evidence). *)
 From Coq Require Import Reals.
 From VP Require Import Lib RLib Spec Compute Tables Spec_planar Spec_spatial1 Spec_spatial2 Spec_lorentz C02_defs C09_boost C10_rot.
-From VP Require Import Spec_lorentz2 Spec_lorentz3 FLib C02_float.
+From VP Require Import Spec_lorentz2 Spec_lorentz3 Spec_lorentz4 Spec_lorentz5 FLib C02_float.
 Open Scope R_scope.
 
 (* coordinate relations, all systems *)
@@ -114,6 +114,17 @@ Proof.
   exact (conj (beta_spec s l t a b c d H) (conj (rapidity_spec s l t a b c d H) (conj (Mt2_spec s l t a b c d H)
     (conj (Mt_spec s l t a b c d H) (conj (tau_spec s l t a b c d H) (conj (gamma_spec s l t a b c d H)
     (conj (Et_spec s l t a b c d H) (conj (Et2_spec s l t a b c d H) (conj (unit_spec3 s l a b c H3) (unit_spec4 s l t a b c d H)))))))))).
+Qed.
+
+(* the general linear transform is the documented matrix-vector product in EVERY coordinate system: 2D above; 4D here for all 12
+   signatures (the time of a tau-stored vector is computed first); the result is returned in Cartesian coordinates *)
+Theorem C02_transform4D_all_signatures : forall s l t a b c d, rep4 s l t a b c d ->
+  forall xx xy xz xt yx yy yz yt zx zy zz zt tx ty tz tt,
+  let x := sx s a b in let y := sy s a b in let z := sz s l a b c in let u := st s l t a b c d in
+  den4 (T_lorentz_transform4D s l t xx xy xz xt yx yy yz yt zx zy zz zt tx ty tz tt a b c d)
+  = Some (xx * x + xy * y + xz * z + xt * u, yx * x + yy * y + yz * z + yt * u, zx * x + zy * y + zz * z + zt * u, tx * x + ty * y + tz * z + tt * u).
+Proof.
+  intros s l t a b c d H *. cbv zeta. rewrite (transform4D_square_all s l t a b c d _ _ _ _ _ _ _ _ _ _ _ _ _ _ _ _ H). apply transform4D_def.
 Qed.
 
 (* ---------------- float clause (PARTIAL) ----------------
